@@ -239,6 +239,15 @@ func runRobust(c robustCase, cfgs []cfgRec) (o robustObs) {
 					_, err := env.Expand(w, m)
 					return err
 				})
+				// values and IFS that are not valid UTF-8, multi-byte and empty
+				o.guard(fmt.Sprintf("Expand mode %d, odd environment", m), func() error {
+					env := interp.NewExecEnv("sh", "p\xff1", "", "\u00e9")
+					env.Set("HOME", "/h\xff")
+					env.Set("IFS", "\xff,\u00e9")
+					env.Set("a", "x\xff\xffy,\u00e9z\xc3")
+					_, err := env.Expand(w, m)
+					return err
+				})
 			}
 		}
 	}
